@@ -86,19 +86,19 @@ macro_rules! inc_unit {
     };
 }
 
-// @unit C07.inc_structure props=C07 kind=complete fn=zvariant::container_depths::ContainerDepths::inc_structure,zvariant::container_depths::ContainerDepths::check timeout=120
+// @unit C07.inc_structure props=C07 kind=complete fn=zvariant::container_depths::ContainerDepths::inc_structure,zvariant::container_depths::ContainerDepths::check timeout=300
 #[cfg(not(verif_skip_c07_inc_structure__complete))]
 inc_unit!(c07_inc_structure__complete, inc_structure, 1, 0, 0, 0, Some(MaxDepthExceeded::Structure),
     "C07.inc_structure.ok_iff_within_limits", "C07.inc_structure.frame", "C07.inc_structure.err_kind", "C07.inc_structure.wf_preserved");
-// @unit C07.inc_array props=C07 kind=complete fn=zvariant::container_depths::ContainerDepths::inc_array,zvariant::container_depths::ContainerDepths::check timeout=120
+// @unit C07.inc_array props=C07 kind=complete fn=zvariant::container_depths::ContainerDepths::inc_array,zvariant::container_depths::ContainerDepths::check timeout=300
 #[cfg(not(verif_skip_c07_inc_array__complete))]
 inc_unit!(c07_inc_array__complete, inc_array, 0, 1, 0, 0, Some(MaxDepthExceeded::Array),
     "C07.inc_array.ok_iff_within_limits", "C07.inc_array.frame", "C07.inc_array.err_kind", "C07.inc_array.wf_preserved");
-// @unit C07.inc_variant props=C07 kind=complete fn=zvariant::container_depths::ContainerDepths::inc_variant,zvariant::container_depths::ContainerDepths::check timeout=120
+// @unit C07.inc_variant props=C07 kind=complete fn=zvariant::container_depths::ContainerDepths::inc_variant,zvariant::container_depths::ContainerDepths::check timeout=300
 #[cfg(not(verif_skip_c07_inc_variant__complete))]
 inc_unit!(c07_inc_variant__complete, inc_variant, 0, 0, 1, 0, None,
     "C07.inc_variant.ok_iff_within_limits", "C07.inc_variant.frame", "C07.inc_variant.err_kind", "C07.inc_variant.wf_preserved");
-// @unit C07.inc_maybe props=C07 kind=complete features=gvariant tier=thorough fn=zvariant::container_depths::ContainerDepths::inc_maybe timeout=120
+// @unit C07.inc_maybe props=C07 kind=complete features=gvariant tier=thorough fn=zvariant::container_depths::ContainerDepths::inc_maybe timeout=300
 #[cfg(not(verif_skip_c07_inc_maybe__complete))]
 #[cfg(feature = "gvariant")]
 inc_unit!(c07_inc_maybe__complete, inc_maybe, 0, 0, 0, 1, None,
@@ -122,29 +122,29 @@ macro_rules! dec_unit {
         }
     };
 }
-// @unit C07.dec_structure props=C07 kind=complete fn=zvariant::container_depths::ContainerDepths::dec_structure timeout=120
+// @unit C07.dec_structure props=C07 kind=complete fn=zvariant::container_depths::ContainerDepths::dec_structure timeout=300
 #[cfg(not(verif_skip_c07_dec_structure__complete))]
 dec_unit!(c07_dec_structure__complete, dec_structure, structure, "C07.dec_structure.exact_inverse_and_frame", "C07.dec_structure.wf_preserved");
-// @unit C07.dec_array props=C07 kind=complete fn=zvariant::container_depths::ContainerDepths::dec_array timeout=120
+// @unit C07.dec_array props=C07 kind=complete fn=zvariant::container_depths::ContainerDepths::dec_array timeout=300
 #[cfg(not(verif_skip_c07_dec_array__complete))]
 dec_unit!(c07_dec_array__complete, dec_array, array, "C07.dec_array.exact_inverse_and_frame", "C07.dec_array.wf_preserved");
-// @unit C07.dec_maybe props=C07 kind=complete features=gvariant tier=thorough fn=zvariant::container_depths::ContainerDepths::dec_maybe timeout=120
+// @unit C07.dec_maybe props=C07 kind=complete features=gvariant tier=thorough fn=zvariant::container_depths::ContainerDepths::dec_maybe timeout=300
 #[cfg(not(verif_skip_c07_dec_maybe__complete))]
 #[cfg(feature = "gvariant")]
 dec_unit!(c07_dec_maybe__complete, dec_maybe, maybe, "C07.dec_maybe.exact_inverse_and_frame", "C07.dec_maybe.wf_preserved");
 
 // The same three inc contracts under --features gvariant (the total then includes `maybe`)
-// @unit C07.inc_structure.gv props=C07 kind=complete features=gvariant tier=thorough fn=zvariant::container_depths::ContainerDepths::inc_structure timeout=120
+// @unit C07.inc_structure.gv props=C07 kind=complete features=gvariant tier=thorough fn=zvariant::container_depths::ContainerDepths::inc_structure timeout=300
 #[cfg(not(verif_skip_c07_gv_inc_structure__complete))]
 #[cfg(feature = "gvariant")]
 inc_unit!(c07_gv_inc_structure__complete, inc_structure, 1, 0, 0, 0, Some(MaxDepthExceeded::Structure),
     "C07.inc_structure.gv.ok_iff_within_limits", "C07.inc_structure.gv.frame", "C07.inc_structure.gv.err_kind", "C07.inc_structure.gv.wf_preserved");
-// @unit C07.inc_array.gv props=C07 kind=complete features=gvariant tier=thorough fn=zvariant::container_depths::ContainerDepths::inc_array timeout=120
+// @unit C07.inc_array.gv props=C07 kind=complete features=gvariant tier=thorough fn=zvariant::container_depths::ContainerDepths::inc_array timeout=300
 #[cfg(not(verif_skip_c07_gv_inc_array__complete))]
 #[cfg(feature = "gvariant")]
 inc_unit!(c07_gv_inc_array__complete, inc_array, 0, 1, 0, 0, Some(MaxDepthExceeded::Array),
     "C07.inc_array.gv.ok_iff_within_limits", "C07.inc_array.gv.frame", "C07.inc_array.gv.err_kind", "C07.inc_array.gv.wf_preserved");
-// @unit C07.inc_variant.gv props=C07 kind=complete features=gvariant tier=thorough fn=zvariant::container_depths::ContainerDepths::inc_variant timeout=120
+// @unit C07.inc_variant.gv props=C07 kind=complete features=gvariant tier=thorough fn=zvariant::container_depths::ContainerDepths::inc_variant timeout=300
 #[cfg(not(verif_skip_c07_gv_inc_variant__complete))]
 #[cfg(feature = "gvariant")]
 inc_unit!(c07_gv_inc_variant__complete, inc_variant, 0, 0, 1, 0, None,
